@@ -638,6 +638,10 @@ func validateBatchWriteItemInput(input *dynamodb.BatchWriteItemInput) error {
 		}
 	}
 
+	if count == 0 {
+		return &smithy.GenericAPIError{Code: "ValidationException", Message: "The batch write request list for a table cannot be null or empty"}
+	}
+
 	if count > batchRequestsLimit {
 		return &smithy.GenericAPIError{Code: "ValidationException", Message: "Too many items requested for the BatchWriteItem call"}
 	}
